@@ -81,6 +81,9 @@ package proposal
 //@   ensures {C10} set-goes-over-the-master-connection: deviceSetCalls > old(deviceSetCalls) ==> lastSetConnID == readCfgMaster
 //@   ensures {C10} apply-carries-term: deviceSetCalls > old(deviceSetCalls) ==> lastSetHasArbitration && lastSetElectionLow == readCfgTerm && lastSetElectionHigh == 0
 //@   ensures {C02,C04,C07} applied-index-follows-device: deviceSetCalls > old(deviceSetCalls) && err == nil && (deviceCode == codes.OK) ==> storedCfgApplied == proposal.TransactionIndex && applyState(proposal) == configapi.ProposalApplyPhase_APPLIED
+// recovery after a crash between the configuration write and the proposal write: a proposal whose change the
+// configuration already shows as applied completes in this step, whatever its predecessor's state
+//@   ensures {C07} applied-index-reached-completes: old(applyState(proposal)) == configapi.ProposalApplyPhase_APPLYING && readCfgOK && readCfgApplied >= proposal.TransactionIndex && err == nil ==> applyState(proposal) == configapi.ProposalApplyPhase_APPLIED && deviceSetCalls == old(deviceSetCalls)
 //@   ensures {C02,C07} applied-only-if-index-reached: applyState(proposal) == configapi.ProposalApplyPhase_APPLIED && old(applyState(proposal)) == configapi.ProposalApplyPhase_APPLYING ==> storedCfgApplied >= proposal.TransactionIndex
 //@   ensures {C02} apply-writes-no-values: cfgValueWrites == old(cfgValueWrites) && cfgCreates == old(cfgCreates)
 //@   ensures {C11} transient-not-failed: deviceSetCalls > old(deviceSetCalls) && (deviceCode == codes.Unavailable || deviceCode == codes.Canceled || deviceCode == codes.DeadlineExceeded || deviceCode == codes.PermissionDenied) ==> applyState(proposal) == configapi.ProposalApplyPhase_APPLYING && cfgStatusWrites == old(cfgStatusWrites) && proposalStatusWrites == old(proposalStatusWrites) && (deviceCode != codes.PermissionDenied ==> err != nil)
